@@ -37,7 +37,9 @@ type Program struct {
 	Tags    string
 
 	// lazily computed
-	callersOf map[*ssa.Function][]*callgraph.Edge
+	callersOf map[*ssa.Function][]*CallEdge
+	outEdges  map[*ssa.Function][]*CallEdge
+	implCache map[string][]*ssa.Function
 }
 
 type LoadOpts struct {
@@ -293,19 +295,105 @@ func (p *Program) Callees(site ssa.CallInstruction) []*ssa.Function {
 			out = append(out, e.Callee.Func)
 		}
 	}
+	// interface invokes on module interfaces: add every module implementation (CHA), so that dispatch
+	// targets do not depend on which concrete types happen to flow there in the loaded packages
+	if cc := site.Common(); cc.IsInvoke() {
+		if n := namedOf(cc.Value.Type()); n != nil && n.Obj().Pkg() != nil && strings.HasPrefix(n.Obj().Pkg().Path(), modPath) {
+			for _, f := range p.moduleImplementations(cc.Value.Type(), cc.Method.Name()) {
+				if !seen[f] {
+					seen[f] = true
+					out = append(out, f)
+				}
+			}
+		}
+	}
 	sort.Slice(out, func(i, j int) bool { return out[i].String() < out[j].String() })
 	return out
 }
 
-func (p *Program) Callers(fn *ssa.Function) []*callgraph.Edge {
-	if p.callersOf == nil {
-		p.callersOf = map[*ssa.Function][]*callgraph.Edge{}
-		for _, n := range p.CG.Nodes {
-			for _, e := range n.Out {
-				p.callersOf[e.Callee.Func] = append(p.callersOf[e.Callee.Func], e)
+// moduleImplementations: methods named m of module types T (value method sets) that implement iface.
+func (p *Program) moduleImplementations(iface types.Type, m string) []*ssa.Function {
+	it, ok := iface.Underlying().(*types.Interface)
+	if !ok {
+		return nil
+	}
+	key := iface.String() + "." + m
+	if p.implCache == nil {
+		p.implCache = map[string][]*ssa.Function{}
+	}
+	if r, ok := p.implCache[key]; ok {
+		return r
+	}
+	var out []*ssa.Function
+	for _, pk := range p.Pkgs {
+		if isProtoPkg(pk.PkgPath) && !isProtoPkg(namedOf(iface).Obj().Pkg().Path()) {
+			// generated message types implement module interfaces such as tripOrVehicle through their getters
+		}
+		sc := pk.Types.Scope()
+		for _, name := range sc.Names() {
+			tn, ok := sc.Lookup(name).(*types.TypeName)
+			if !ok || tn.IsAlias() {
+				continue
+			}
+			for _, t := range []types.Type{tn.Type(), types.NewPointer(tn.Type())} {
+				if _, isIface := t.Underlying().(*types.Interface); isIface {
+					continue
+				}
+				if !types.Implements(t, it) {
+					continue
+				}
+				// prefer the value type when it implements the interface (pointer wrappers add nothing)
+				if _, isPtr := t.(*types.Pointer); isPtr && types.Implements(tn.Type(), it) {
+					continue
+				}
+				ms := p.SSA.MethodSets.MethodSet(t)
+				for k := 0; k < ms.Len(); k++ {
+					if ms.At(k).Obj().Name() == m {
+						if f := p.SSA.MethodValue(ms.At(k)); f != nil {
+							out = append(out, f)
+						}
+					}
+				}
 			}
 		}
 	}
+	p.implCache[key] = out
+	return out
+}
+
+// CallEdge is a resolved call: site in Caller may invoke Callee.
+type CallEdge struct {
+	Caller *ssa.Function
+	Site   ssa.CallInstruction
+	Callee *ssa.Function
+}
+
+func (p *Program) buildEdges() {
+	if p.callersOf != nil {
+		return
+	}
+	p.callersOf = map[*ssa.Function][]*CallEdge{}
+	p.outEdges = map[*ssa.Function][]*CallEdge{}
+	for _, fn := range p.ModFns {
+		for _, b := range fn.Blocks {
+			for _, in := range b.Instrs {
+				site, ok := in.(ssa.CallInstruction)
+				if !ok {
+					continue
+				}
+				for _, cal := range p.Callees(site) {
+					e := &CallEdge{Caller: fn, Site: site, Callee: cal}
+					p.callersOf[cal] = append(p.callersOf[cal], e)
+					p.outEdges[fn] = append(p.outEdges[fn], e)
+				}
+			}
+		}
+	}
+}
+
+// Callers returns the resolved call edges into fn from module code.
+func (p *Program) Callers(fn *ssa.Function) []*CallEdge {
+	p.buildEdges()
 	return p.callersOf[fn]
 }
 
@@ -341,10 +429,11 @@ func (p *Program) Reachable(roots ...*ssa.Function) map[*ssa.Function][]*ssa.Fun
 			reach[c] = path
 			work = append(work, c)
 		}
-		if n := p.CG.Nodes[fn]; n != nil {
+		p.buildEdges()
+		{
 			var cs []*ssa.Function
-			for _, e := range n.Out {
-				cs = append(cs, e.Callee.Func)
+			for _, e := range p.outEdges[fn] {
+				cs = append(cs, e.Callee)
 			}
 			sort.Slice(cs, func(i, j int) bool { return cs[i].String() < cs[j].String() })
 			for _, c := range cs {
